@@ -7,7 +7,6 @@ Open Scope N_scope.
 
 Definition p_fuel : N := 99.
 Definition p_nil_table : N := 71.     (* index of a nil validChars slice *)
-Definition p_hang : N := 70.          (* "for rc := lo; rc <= 255; rc++" never ends (byte wraps) *)
 Definition p_trim : N := 72.          (* s[istart:iend+1] out of range *)
 Definition p_range : N := 73.         (* s[:maxRange] with a negative maxRange *)
 Definition e_not_closed : N := 1.
@@ -16,6 +15,7 @@ Definition e_empty_expr : N := 3.
 Definition e_double_hyphen : N := 4.
 Definition e_empty_wildcard : N := 5.
 Definition e_bad_wildcard : N := 6.
+Definition e_star_boundary : N := 7.  (* '*' without the boundary on its far side *)
 
 Definition pat_unescape (s : bytes) : outcome bytes :=
   match unescape_run pattern_unescaper s with
@@ -73,8 +73,7 @@ Fixpoint fill_loop (expr : bytes) (n : nat) (listed : bool) (rem : bytes) (i : n
       else if ((0 <? i) && (i <? n - 1))%nat then fill_loop expr n listed rem' (S i) t true
       else fill_loop expr n listed rem' (S i) (upd t 45 listed) false
     else if range_started then
-      if c =? 255 then Panic p_hang
-      else fill_loop expr n listed rem' (S i) (upd_range t (nth (i - 2) expr 0) c listed) false
+      fill_loop expr n listed rem' (S i) (upd_range t (nth (i - 2) expr 0) c listed) false
     else fill_loop expr n listed rem' (S i) (upd t c listed) false
   end.
 
@@ -103,7 +102,10 @@ Record extractor := {
 Definition new_string_extractor (head : bool) (l w r : bytes) (maxr : Z) : outcome extractor :=
   match w with
   | [] => Err e_empty_wildcard
-  | [42] => Ok {| ex_head := head; ex_left := l; ex_right := r; ex_max := maxr; ex_table := None |}
+  | [42] =>
+    (* a bare "*": the label can only be delimited by the boundary on its far side *)
+    if (match (if head then r else l) with [] => true | _ => false end) then Err e_star_boundary
+    else Ok {| ex_head := head; ex_left := l; ex_right := r; ex_max := maxr; ex_table := None |}
   | _ =>
     if ((length w <? 2)%nat || negb (hd 0 w =? 91) || negb (last w 0 =? 93))%bool then Err e_bad_wildcard
     else
